@@ -97,6 +97,7 @@ INLINE_TEMPLATES = {
     'bare':       ('{%s}', '%s'),
     'two':        ('p{%s}+q{%s}', '<p>%s</p><q>%s</q>'),
     'climb':      ('div>p{%s}^i', '<div><p>%s</p></div><i></i>'),
+    'attr-children': ('p.c{%s}>b+i+u', '<p class="c">%s<b></b><i></i><u></u></p>'),
 }
 ATTR_TEMPLATES = {
     'dq':   ('p[t="%s"]', '<p t="%s"></p>', '"'),
@@ -180,6 +181,7 @@ IMPLICIT_TEMPLATES = {
     'sibling-after':  ('p>li*+i', '<p>', '<li>{L}</li>', '<i></i></p>'),
     'ph-both':        ('li[t="$#"]{$#}*>b', '', '<li t="{L}">{L}<b></b></li>', ''),
     'textnode-ph':    ('ul>li*>{x $#}', '<ul>', '<li>x {L}</li>', '</ul>'),
+    'three-children': ('li*>b+i+u>s+q+em', '', '<li><b></b><i></i><u><s></s><q></q><em>{L}</em></u></li>', ''),
 }
 # no implicit repeater: (abbreviation, output prefix up to the deepest last element's content, own text, suffix)
 WHOLE_TEMPLATES = {
@@ -191,6 +193,7 @@ WHOLE_TEMPLATES = {
     'last-top':   ('(p>b)+i', '<p><b></b></p><i>', '', '</i>'),
     'deep':       ('div>p+ul>li>b', '<div><p></p><ul><li><b>', '', '</b></li></ul></div>'),
     'ph':         ('p{$#}', '<p>', '', '</p>'),
+    'three-children': ('div>p+q+ul>li+li+li', '<div><p></p><q></q><ul><li></li><li></li><li>', '', '</li></ul></div>'),
     'ph-child':   ('p>b{$#}+i', None, '', None),
 }
 
